@@ -212,7 +212,8 @@ func reifyMap(opts *options, to reflect.Value, from *Config, validators []valida
 
 	for k, value := range fields {
 		opts.activeFields = newFieldSet(parentFields)
-		key := reflect.ValueOf(k)
+		// named string types as keys: the key has the key type of the map
+		key := reflect.ValueOf(k).Convert(to.Type().Key())
 
 		old := to.MapIndex(key)
 		var v reflect.Value
